@@ -41,6 +41,12 @@ template <class X> struct UriBox {
         if (!live) memset(&u, 0, sizeof u);
         return rc;
     }
+    // parse a range of somebody else's buffer (several boxes may view one buffer; nothing is copied, nothing is released with the box)
+    int parse_view(const Char* p, size_t n, const Str& model) {
+        free_members(); drop_text(); len = n; led = nullptr; srcText = model;
+        const Char* ep = nullptr; int rc; { AttrScope at("C03"); LibScope ls; rc = X::ParseSingleUriEx(&u, p, p + n, &ep); }
+        live = rc == URI_SUCCESS; if (!live) memset(&u, 0, sizeof u); return rc;
+    }
     void free_members() {
         if (!live) return;
         LibScope ls;
